@@ -418,18 +418,51 @@ Section StatusProofs.
 End StatusProofs.
 
 (* ---------------------------------------------------------------------------------------------- *)
-(* the zerosubsecond: lines of the status log carry the raw name: two different sets of files give the same bytes *)
-Definition zs_file (name : bstr) : file := mkfile name 1 1600000000 0 1 [].
-Definition zs_disk : bstr := [100].                                                  (* d *)
-Definition zs_name1 : bstr := [120; 58; 32; 10] ++ t_zerosub ++ [58; 100; 58; 121].  (* x: <LF>zerosubsecond:d:y *)
-
-Lemma status_zerosub_refuted :
-  exists d fs1 fs2,
-    Forall (fun f => no_nul (f_sub f)) fs1 /\ Forall (fun f => no_nul (f_sub f)) fs2 /\
-    map f_sub fs1 <> map f_sub fs2 /\
-    zerosub_lines d fs1 0 = zerosub_lines d fs2 0.
+(* the zerosubsecond: lines of the status log (name escaped since the repair of F-C20-status-zerosubsecond-raw) *)
+Lemma zerosub_entries_ok fs : Forall (fun f => no_nul (f_sub f)) fs -> forall k,
+  Forall (fun p => no_nul (fst p) /\ (snd p = [] \/ snd p = t_more_follow)) (zerosub_entries fs k).
 Proof.
-  exists zs_disk, [zs_file zs_name1], [zs_file [120]; zs_file [121]].
-  split; [repeat constructor; discriminate|]. split; [repeat constructor; discriminate|].
-  split; [discriminate|reflexivity].
+  induction 1 as [|f t Hf Ht IH]; intro k; simpl; [constructor|].
+  destruct (is_zerosub f); [|apply IH].
+  apply Forall_app; split; [|apply IH].
+  destruct (_ <? 50); [constructor; [split; [exact Hf|now left]|constructor]|].
+  destruct (_ =? 50); [constructor; [split; [exact Hf|now right]|constructor]|constructor].
+Qed.
+
+Lemma zerosub_rec_ok d p : field_safe d -> no_nul (fst p) -> (snd p = [] \/ snd p = t_more_follow) -> rec_ok (zerosub_rec d p).
+Proof.
+  intros Hd Hn Ht. unfold zerosub_rec, rec_ok. split; [discriminate|]. split; [|reflexivity].
+  apply Forall_cons; [apply lit_safe; reflexivity|]. apply Forall_cons; [exact Hd|].
+  apply Forall_cons; [apply tag_clean_safe, esc_tag_clean|]. apply Forall_cons; [|apply Forall_nil].
+  destruct Ht as [-> | ->]; apply lit_safe; reflexivity.
+Qed.
+
+Lemma status_zerosub_parse d fs : field_safe d -> Forall (fun f => no_nul (f_sub f)) fs ->
+  parse_log (zerosub_lines d fs 0) = map (fun p => Some (zerosub_rec d p)) (zerosub_entries fs 0).
+Proof.
+  intros Hd Hfs. unfold zerosub_lines. rewrite tag_log_parse; [now rewrite map_map|].
+  rewrite Forall_map. pose proof (zerosub_entries_ok fs Hfs 0) as H. revert H. apply Forall_impl.
+  intros p [Hn Ht]. now apply zerosub_rec_ok.
+Qed.
+
+Lemma zerosub_rec_inj d p q : no_nul (fst p) -> no_nul (fst q) -> zerosub_rec d p = zerosub_rec d q -> p = q.
+Proof.
+  intros Hp Hq E. unfold zerosub_rec in E. injection E as En Et.
+  destruct p as [n1 t1], q as [n2 t2]; simpl in *. f_equal; [|exact Et].
+  pose proof (esc_tag_inverse n1 Hp) as H1. rewrite En, (esc_tag_inverse n2 Hq) in H1. congruence.
+Qed.
+
+(* the names (and the "more follow" marks) are recovered from the log bytes: different sets of files, different bytes *)
+Lemma status_zerosub_unambiguous d fs1 fs2 : field_safe d ->
+  Forall (fun f => no_nul (f_sub f)) fs1 -> Forall (fun f => no_nul (f_sub f)) fs2 ->
+  zerosub_lines d fs1 0 = zerosub_lines d fs2 0 -> zerosub_entries fs1 0 = zerosub_entries fs2 0.
+Proof.
+  intros Hd H1 H2 E.
+  pose proof (status_zerosub_parse d fs1 Hd H1) as P1. pose proof (status_zerosub_parse d fs2 Hd H2) as P2.
+  rewrite E, P2 in P1. clear E P2.
+  pose proof (zerosub_entries_ok fs1 H1 0) as O1. pose proof (zerosub_entries_ok fs2 H2 0) as O2.
+  revert O1 O2 P1. generalize (zerosub_entries fs1 0) (zerosub_entries fs2 0).
+  intros l1. induction l1 as [|p t IH]; intros l2 O1 O2 P; destruct l2 as [|q u]; simpl in P; try discriminate; [reflexivity|].
+  injection P as Pq Pt. inversion O1 as [|? ? [Hp _] O1']; inversion O2 as [|? ? [Hq _] O2']; subst.
+  f_equal; [symmetry; now apply (zerosub_rec_inj d)|now apply IH].
 Qed.
